@@ -21,7 +21,8 @@ def stages(tier, seed, bins):
     rnd = random.Random(seed * 1103 + 14)
     thorough = tier == "thorough"
     cases = []
-    sizes = [10, 13, 22] if not thorough else [7, 10, 13, 22, 31, 40]
+    # sizes cover every residue of N-1 modulo 3 (the perplexity bound is (N-1)/3) and odd/even N
+    sizes = [9, 11, 13, 20] if not thorough else [7, 8, 9, 11, 12, 13, 20, 21, 22, 30, 35, 40]
     for m in ALL:
         for N in sizes:
             if m in ("tsne", "ms") and N > 22:
